@@ -10,7 +10,7 @@ VARIABLES l, bad
 Poly(t, N) == [x \in Idx(N) |-> t[x + 1]]
 SumP(N, S, f(_)) == FoldFunctionOnSet(LAMBDA x, acc : PAdd(acc, x), PZero(N), [i \in S |-> f(i)], S)
 
-EventOk(ev) ==
+EventOk(ev) == ev.e = "Vmp" /\
   LET N == ev.N
       rows == IF ev.nrows < Len(ev.a) THEN ev.nrows ELSE Len(ev.a)
       M(i, j) == Poly(ev.mat[(i - 1) * ev.ncols + j], N)
